@@ -245,4 +245,43 @@ theorem retractall_refines (fuel : Nat) (m : State) (hinv : Inv m) (head : Term)
     cases hdr : drain .fixed fuel m1 hd with
     | mk m2 o2 => cases o2 <;> rfl
 
+/-! ### a retract removes exactly its match -/
+
+/-- on the specification machine: an answer of a retract comes from a held clause that is still
+    present and unifies; exactly its identity is erased; every held clause before it either does
+    not unify or is gone -/
+theorem LUV_redoRetract_answer (h : Nat) (pat : Term) (pi : PI) (alive : List Stored) (s : LUV.State) (t : Term)
+    (hans : (LUV.redoRetract s h pat pi alive).2 = .answer t) :
+    ∃ skipped c rest nv σ, alive = skipped ++ c :: rest ∧
+      LUV.present s.procs pi c.id = true ∧
+      unify fuelU [] (rulify pat) (rulify (shift nv c.raw)) = some σ ∧ t = resolve fuelU σ pat ∧
+      (LUV.redoRetract s h pat pi alive).1.procs = LUV.erase s.procs pi c.id ∧
+      (LUV.redoRetract s h pat pi alive).1.iters = s.iters.set h (.retract pat pi rest) := by
+  induction alive generalizing s with
+  | nil => simp [LUV.redoRetract] at hans
+  | cons c alive ih =>
+    unfold LUV.redoRetract at hans ⊢
+    simp only at hans ⊢
+    cases hu : unify fuelU [] (rulify pat) (rulify (shift s.nextVar c.raw)) with
+    | none =>
+      simp only [hu] at hans
+      obtain ⟨skipped, c', rest, nv, σ, h1, h2, h3, h4, h5, h6⟩ := ih _ hans
+      exact ⟨c :: skipped, c', rest, nv, σ, by simp [h1], h2, h3, h4, h5, h6⟩
+    | some σ =>
+      simp only [hu] at hans
+      by_cases hp : LUV.present s.procs pi c.id = true
+      · simp only [hp, if_true] at hans ⊢
+        simp only [Out.answer.injEq] at hans
+        exact ⟨[], c, alive, s.nextVar, σ, rfl, hp, hu, hans.symm, rfl, rfl⟩
+      · simp only [hp, if_false] at hans ⊢
+        obtain ⟨skipped, c', rest, nv, σ', h1, h2, h3, h4, h5, h6⟩ := ih _ hans
+        exact ⟨c :: skipped, c', rest, nv, σ', by simp [h1], h2, h3, h4, h5, h6⟩
+
+/-- what is erased is gone: no later retract (of any iterator) can remove it again -/
+theorem LUV_present_erase (ps : Procs) (pi : PI) (id : Nat) : LUV.present (LUV.erase ps pi id) pi id = false := by
+  unfold LUV.present LUV.erase LUV.clausesOf
+  cases hg : ps.get pi with
+  | none => simp [hg]
+  | some p => simp [Procs.get_set]
+
 end PrologVerif.DB
